@@ -65,6 +65,66 @@ def run(tier, replay=None):
         viols.append({"key": "C16:%s:%s" % (kind, sig[:60]),
                       "what": "%s (row %s, stage S(%s), split %s): %s" % (v["kind"], v["id"], sig, x["split"], v["detail"][:300].replace("\n", " ")),
                       "replay": {"row.json": json.dumps(x), "call.mro": v["text"], "detail.txt": v["detail"]}})
+    # the mrg binary itself on a sample of the rows: data -> call text (with and without
+    # `mro_file`), and back with --reverse; numbers are compared by value
+    import random
+    rngm = random.Random(vlib.seed())
+    mdir = vlib.scratch("c16mrg")
+    mb = os.path.join(mdir, "mrg")
+    pb = subprocess.run(["go", "build", "-o", mb, "./cmd/mrg"], cwd=vlib.REPO, env=vlib.GOENV, stdout=subprocess.PIPE,
+                        stderr=subprocess.STDOUT, text=True, timeout=900)
+    if pb.returncode != 0:
+        raise vlib.Infra("go build of mrg failed: " + pb.stdout[-1000:])
+    plain = [x for x in rows if not x["split"]]
+    sample_rows = rngm.sample(plain, min(len(plain), 60 if tier == "quick" else 600))
+    nmrg = 0
+
+    def same_json(a, b):
+        if isinstance(a, bool) or isinstance(b, bool):
+            return a is b
+        if isinstance(a, (int, float)) and isinstance(b, (int, float)):
+            return float(a) == float(b)
+        if isinstance(a, dict) and isinstance(b, dict):
+            return set(a) == set(b) and all(same_json(a[k], b[k]) for k in a)
+        if isinstance(a, list) and isinstance(b, list):
+            return len(a) == len(b) and all(same_json(u, v) for u, v in zip(a, b))
+        return a == b
+
+    for x in sample_rows:
+        d = os.path.join(mdir, x["id"])
+        os.makedirs(d, exist_ok=True)
+        open(os.path.join(d, "s.mro"), "w").write(invcorpus.stage_src(x))
+        args = {a["n"]: json.loads(invcorpus.untag_json(a["v"])) for a in x["args"]}
+        sig = ", ".join("%s %s" % (invcorpus.type_str(q["t"]), q["n"]) for q in x["params"])
+        for with_file in (True, False):
+            data = {"call": "S", "args": args}
+            if with_file:
+                data["mro_file"] = "s.mro"
+            env = dict(vlib.GOENV, MROPATH=d)
+            p1 = subprocess.run([mb], input=json.dumps(data), cwd=d, env=env, stdout=subprocess.PIPE, stderr=subprocess.PIPE, text=True, timeout=60)
+            label = "with mro_file" if with_file else "without mro_file"
+            if p1.returncode != 0 or not p1.stdout.strip():
+                kind = "integer-beyond-int64-in-data" if ("integer overflow" in (p1.stderr + p1.stdout)
+                                                          or '"fits": false' in json.dumps(x["args"])) else "mrg-fails"
+                viols.append({"key": "C16:%s:%s" % (kind, sig[:60]),
+                              "what": "mrg (%s) fails on row %s, stage S(%s): %s" % (label, x["id"], sig, (p1.stderr or p1.stdout)[-300:].replace("\n", " ")),
+                              "replay": {"data.json": json.dumps(data), "s.mro": invcorpus.stage_src(x)}})
+                continue
+            p2 = subprocess.run([mb, "--reverse"], input=p1.stdout, cwd=d, env=env, stdout=subprocess.PIPE, stderr=subprocess.PIPE, text=True, timeout=60)
+            nmrg += 1
+            if p2.returncode != 0:
+                viols.append({"key": "C16:mrg-text-rejected:%s" % sig[:60],
+                              "what": "the call text mrg (%s) writes for row %s, stage S(%s), is rejected by mrg --reverse: %s" % (label, x["id"], sig, p2.stderr[-300:].replace("\n", " ")),
+                              "replay": {"data.json": json.dumps(data), "call.mro": p1.stdout, "s.mro": invcorpus.stage_src(x)}})
+                continue
+            back = json.loads(p2.stdout)
+            # a parameter the data does not mention is written as null
+            bargs = {k: v for k, v in (back.get("args") or {}).items() if not (v is None and k not in args)}
+            if back.get("call") != "S" or not same_json(bargs, args):
+                viols.append({"key": "C16:mrg-round-trip-differs:%s" % sig[:60],
+                              "what": "mrg (%s) and mrg --reverse do not give the data back for row %s, stage S(%s): %s became %s" % (
+                                  label, x["id"], sig, json.dumps(args)[:200], json.dumps(back.get("args"))[:200]),
+                              "replay": {"data.json": json.dumps(data), "call.mro": p1.stdout, "back.json": p2.stdout}})
     # per-fork invocations on real runs
     progs = shapes.catalogue() + fshapes.catalogue() + [gen.gen_program(s) for s in range(40 if tier == "quick" else 300)]
     sem, _ = psrun.semantics(progs)
@@ -89,7 +149,7 @@ def run(tier, replay=None):
         "traces_validated_against_impl": len(rows) + checked,
         "rows": len(rows), "rows_with_split": sum(1 for x in rows if x["split"]),
         "calls_built": rep["counts"].get("calls_built", 0), "literal_kind_differences": rep["counts"].get("literal_kind_differs", 0),
-        "fork_invocations_checked": checked, "programs_run": len(progs),
+        "fork_invocations_checked": checked, "mrg_binary_round_trips": nmrg, "programs_run": len(progs),
         "samples": [rep.get("sample")], "known_findings_hit": hit,
     }, [
         "value universe of MroTypes (7 builtins, txt, structs S1..S4, arrays dim <= 2, typed maps of scalars / structs / arrays; only values without undeclared struct fields) plus corner scalars (integers beyond 2^53 and at the int64 limits, extreme floats, escapes, control characters, non-ASCII, empty keys)",
